@@ -75,6 +75,25 @@ def extractArchive (pat : String) (g : String → Bool) (stem : String) (listing
   let (f, rm) := matching pat g stem listing
   if f.isEmpty then [] else extract f rm ms
 
+/-! ### what lands in the directory -/
+
+/-- can a file of that name be created below the directory? Not if the name ends in a separator, `.` or `..`
+    (it denotes a directory then: `sub/..`, `b/.`) -/
+def creatable (n : String) : Bool :=
+  match (n.splitOn "/").getLast? with
+  | some s => s != "" && s != "." && s != ".."
+  | none => false
+
+/-- the members are written one after the other; a member that cannot be created is skipped, and so is one whose name
+    denotes a file an earlier member of this request has produced (`a.dlt`, `./a.dlt`): nothing is overwritten -/
+def landGo : List (List String) → List (String × List UInt8) → List (String × List UInt8)
+  | _, [] => []
+  | seen, (n, d) :: t =>
+    let p := resolve [] (comps n)
+    if creatable n && !seen.contains p then (n, d) :: landGo (p :: seen) t else landGo seen t
+
+def land (l : List (String × List UInt8)) : List (String × List UInt8) := landGo [] l
+
 /-! ### a second request into the same directory -/
 
 /-- the pre-pass of `extract_to_dir`: entries whose (renamed) target exists already inside the directory are reported as
